@@ -371,8 +371,8 @@ def object_states(prog, fn, obj_expr, at, adt="Message"):
 _send_cache = {}
 
 
-def send_templates(prog, send_suffix="RaftCore::send", arg_index=1):
-    key = (id(prog), send_suffix)
+def send_templates(prog, send_suffix="RaftCore::send", arg_index=1, adt="Message"):
+    key = (id(prog), send_suffix, adt)
     if key in _send_cache:
         return _send_cache[key]
     out = []
@@ -380,7 +380,7 @@ def send_templates(prog, send_suffix="RaftCore::send", arg_index=1):
         a = prog.an[s.fn.key]
         args = [a.expr_operand(o, s.at) for o in s.data["term"]["args"]]
         obj = args[arg_index]
-        sts, via = object_states(prog, s.fn, obj, s.at)
+        sts, via = object_states(prog, s.fn, obj, s.at, adt)
         if not sts:
             out.append(Template(s.fn, s, obj, {"*": ("opaque", "unknown object")}, via))
             continue
